@@ -1,9 +1,9 @@
-import AfkakProps.Open.C09
 import Afkak.Monitor.C09
 import Afkak.Producer
 import AfkakProofs.Producer.Spec
 import AfkakProofs.Producer.RelStep
 import AfkakProofs.Producer.Geo
+import AfkakProofs.Producer.Order
 /-!
 # C09 — Per-partition send order is preserved and retries are disciplined
 Property theorems only.  Model: `Afkak/Producer.lean`; monitors: `Afkak/Monitor/C09.lean`.
@@ -14,6 +14,22 @@ open Afkak.Consts Afkak.Producer Afkak.Monitor.ProducerTrace Afkak.Monitor.C09
 /-- The back-off factor the source contains really makes delays GROW (`1 < factor`), and is positive;
     the geometric-delay statements depend on it.  Re-checked against `/repo` on every run. -/
 theorem C09_factor_gt_one : 1 < producerRetryFactor ∧ 0 < producerInitRetryInterval := by decide +kernel
+
+/-- Order — trace level, for EVERY event list: inside every payload of every produce request the sends
+    are in submission order (send ids are handed out in call order, a payload's messages are its sends'
+    messages in that order); a send is in one payload of the request only; and the payload for a
+    topic/partition is either exactly the one sent before for it (a retry) or made only of sends LATER
+    than every send of the previous payload for that topic/partition.  So per topic/partition the
+    messages of first attempts go out in submission order, and a retry re-sends a payload unchanged. -/
+theorem C09_order (cfg : Cfg) (evs : List Ev) : order cfg (traceOf cfg evs) = true :=
+  order_model cfg evs
+
+/-- One batch in flight — trace level, for EVERY event list: a produce request that is not a retry
+    carries only sends that were never in a request before, and (given the client accounted for every
+    payload of every request so far, C07) it is made only when every send of every earlier request has
+    fired, i.e. all earlier batches are resolved; a retry carries only sends of the request it retries. -/
+theorem C09_one_batch (cfg : Cfg) (evs : List Ev) : oneBatch cfg (traceOf cfg evs) = true :=
+  oneBatch_model cfg evs
 
 /-- Retry only what failed — trace level, for EVERY event list: a retry (the produce request sent by
     the timer that was set while the previous attempt's result was handled) carries exactly the payloads
@@ -82,8 +98,8 @@ C09_attempt_bound
 C09_geometric
 C09_retry_only_failed_handler
 C09_retry_guard_handler
--/
-/- OPEN_STATEMENTS
 C09_order
 C09_one_batch
+-/
+/- OPEN_STATEMENTS
 -/
